@@ -20,7 +20,8 @@ from ref import poly as P
 
 PROPERTY = "C12"
 RULE = (
-    "complete product of D x grid shape x spacing form x mode x batch size x dtype; per element every basis field "
+    "product of D x grid shape x spacing form x mode x batch size x dtype (complete on the shapes listed in bounds, the two extreme "
+    "elements (per-item per-axis spacing, N=2, float64) and (spacing=None, N=1, float32) on the other shapes of the quick tier); per element every basis field "
     "(E_ij x, e_i, x_i x_j e_k, generic), every key request (all, each single key, each pair, order=, short forms) and "
     "every function (flow_derivatives, spatial_derivatives, jacobian_matrix/dict/det, divergence, curl, lie_bracket); "
     "distinct = (sub-check, configuration, field, request); non-trivial = the analytic value judged is not identically zero"
@@ -36,9 +37,10 @@ ASSUMPTIONS = [
     "the distance of the control points (= data lattice) and output sample m lies at control point index 1 + m/stride",
     "lie_bracket(a, b) is judged as Jac(a) b - Jac(b) a (formula in its docstring, positional call); lie_bracket in bspline mode is not judged",
 ]
-MIN_NONTRIVIAL = {"quick": 4000, "thorough": 20000}
-MIN_OUTCOMES = {"quick": 4000, "thorough": 20000}
-MIN_SUB_TRACES = {"fd1": 500, "fd2": 500, "bspline": 100, "keys": 500, "jac": 200, "det": 200, "div": 100, "curl": 100, "lie": 200, "sd": 100}
+# vacuity guard: about half of what the quick tier measures (77 707 non-trivial cases, 52 311 outcomes); thorough is a superset
+MIN_NONTRIVIAL = {"quick": 38000, "thorough": 60000}
+MIN_OUTCOMES = {"quick": 26000, "thorough": 40000}
+MIN_SUB_TRACES = {"fd1": 3800, "fd2": 3100, "bspline": 700, "keys": 6300, "jac": 2900, "det": 2100, "div": 2900, "curl": 2900, "lie": 3300, "sd": 21000}
 
 EPS = {"f32": 2.0 ** -23, "f64": 2.0 ** -52}
 DT = {"f32": torch.float32, "f64": torch.float64}
@@ -447,8 +449,10 @@ def case_jac(J: Judge, case):
             if a is not None:
                 J.outcomes.append(("jm", add, np.round(a, 4).tobytes()))
                 for i in range(B.N):
-                    exp = B.fields[i].jacobian(B.Xout[i]) + (np.eye(D) if eff else 0.0)
-                    tol = C * B.e1(1, float(np.abs(exp).max()))
+                    jac = B.fields[i].jacobian(B.Xout[i])
+                    exp = jac + (np.eye(D) if eff else 0.0)
+                    # magnitude of the terms, not of their sum (A_ii = -1 cancels against the identity)
+                    tol = C * B.e1(1, float(np.abs(jac).max()) + 1.0)
                     J.close("jacobian_matrix", f"value/add_identity={add}", f"item {i}", a[(i,) + reg], exp[reg], tol)
         dd = J.call(U.jacobian_dict, "jacobian_dict", B.u, **kw2)
         if dd is not None:
@@ -460,8 +464,9 @@ def case_jac(J: Judge, case):
                     if a is None:
                         continue
                     for i in range(B.N):
-                        exp = B.fields[i].d1(r, c, B.Xout[i]) + (1.0 if (eff and r == c) else 0.0)
-                        tol = C * B.e1(1, float(np.abs(exp).max()))
+                        d1 = B.fields[i].d1(r, c, B.Xout[i])
+                        exp = d1 + (1.0 if (eff and r == c) else 0.0)
+                        tol = C * B.e1(1, float(np.abs(d1).max()) + 1.0)
                         J.close("jacobian_dict", f"value/add_identity={add}", f"({r},{c}) item {i}", a[(i, 0) + reg], exp[reg], tol)
 
 
@@ -623,8 +628,9 @@ def exec_case(case) -> Judge:
     J = Judge(case)
     st, res = guarded(DISPATCH[case["sub"]], J, case)
     if st == "raises":
-        # an exception outside a guarded deepali call is a defect of the harness: let it surface as exit 2
-        raise res
+        # every deepali call is guarded, so this is the judge failing on a returned object it cannot read
+        # (wrong type / rank / dtype): reported as a malformed result, never as a crashed shard
+        J.bad("harness", "malformed-result/" + type(res).__name__, "judge could not read the returned object: " + exc_text(res))
     return J
 
 
